@@ -23,7 +23,9 @@ META = {
             "websocket peers that never answer exercises it. The registry is written by upgrade and by the connection's "
             "own deferred unmap only (every writer of the endpoints map and every caller of unmap is read off the "
             "source); an unmap from the front path is kept as a refuted counter-model and a stream of front "
-            "connections whose dial a live endpoint refuses exercises it.",
+            "connections whose dial a live endpoint refuses exercises it. The registry key is the name itself (the key "
+            "expression of every access of the endpoints map is read off the source and must be the name parameter; "
+            "names that differ are independent; a folded key used by some operations only is refuted).",
     "note": "Trusted: Coq kernel + vm_compute; translator gen/sni_rpc.go; harness/cmd/c15 + sniproxy/verif_rpc.go + "
             "verif_point.go (one schedule point after ep.serve()); sync.Mutex, the websocket upgrade and the "
             "background old.Close() are single abstract steps; the reason a serve loop ends is nondeterministic in "
@@ -267,7 +269,10 @@ def run(ck):
     for c in cases:
         trivial = c["stream"] == "forced" and len([s for s in c["steps"] if s["op"] == "connect"]) < 2
         # (the key does not depend on how concurrent threads happened to interleave)
-        key = [c["steps"], c.get("looks")] if c["stream"] == "forced" else [c["stream"], c["i"], len(c.get("notes", []))]
+        key = [c["steps"], c.get("looks"), c.get("names")] if c["stream"] == "forced" \
+            else [c["stream"], c["i"], len(c.get("notes", []))]
+        np = "|".join(c.get("names") or [])
+        ck.coverage.setdefault("name_pairs", {})[np] = ck.coverage.get("name_pairs", {}).get(np, 0) + 1
         if c["stream"] == "race":
             key = [c["i"], [(o["how"], o["offset_us"]) for o in c.get("race", [])]]
         if c["stream"] == "front":
@@ -330,7 +335,10 @@ def run(ck):
         trusted=["Coq 8.16.1 kernel + vm_compute", "translator gen/sni_rpc.go (server.go skeleton, locked uses)",
                  "harness/cmd/c15 + checks/c15.py", "sniproxy/verif_rpc.go, verif_point.go hooks",
                  "modelled not verified: sync.Mutex, websocket upgrade, background Close of the kicked client"],
-        rule="3 fixed schedules then seeded forced schedules: 4-13 steps of {connect (optionally held before "
+        rule="endpoint names: every case runs under one of 9 pairs of DIFFERENT names (plain; differing only in the case "
+             "of letters, ASCII and non-ASCII incl. the Kelvin sign and a title-case digraph; differing in a trailing dot "
+             "or slash), which must not kick each other and are unregistered under exactly their own spelling; "
+             "3 fixed schedules then seeded forced schedules: 4-13 steps of {connect (optionally held before "
              "OnConnect), close, sever, release} over 1-2 names and up to 7 connections, every server thread held "
              "at the schedule point after serve() so that unmap order is chosen by the schedule, lookups of every "
              "name after every step and concurrently during steps; plus free-running concurrent connect/close "
